@@ -148,6 +148,33 @@ Theorem no_request_crashes_or_wedges : forall q, predict q <> Exact Crash /\ pre
 Proof. exact predict_is_response. Qed.
 Print Assumptions no_request_crashes_or_wedges.
 
+(* "Malformed or hostile input is answered with an error status": every abstract request that is malformed
+   (unsupported/undecodable Content-Encoding, unparsable from/until, label part of name that does not compile,
+   unknown Content-Type on /ingest, a Zipkin span with an undecodable or missing id / bad time field, an OTLP span
+   with a wrong id width / valueless attribute / absent resource, a body the wire decoder rejects, a bad precision)
+   is predicted 4xx or 5xx ... *)
+Theorem malformed_input_is_rejected : forall q, malformed q = true -> expect_is_error (predict q) = true.
+Proof.
+  intros q H. destruct (q_body q) eqn:E;
+    try (apply predict_char; [rewrite E; discriminate|exact H]).
+  unfold malformed in H. rewrite E in H. discriminate H.
+Qed.
+Print Assumptions malformed_input_is_rejected.
+
+(* ... and every other modelled request is accepted (2xx): the model rejects nothing that is well-formed *)
+Theorem wellformed_input_is_accepted : forall q, q_body q <> BBytes -> malformed q = false -> predict q = Exact C2xx.
+Proof. intros q Hb H. apply predict_char; assumption. Qed.
+Print Assumptions wellformed_input_is_accepted.
+
+Example malformed_hyp_met :
+  malformed {| q_ce := ""; q_gz_ok := false; q_ct := "multipart/form-data; boundary=x"; q_wire_ok := true;
+               q_body := BIngest "12x" "10" "app{a=b}" |} = true.
+Proof. vm_compute. reflexivity. Qed.
+Example wellformed_hyp_met :
+  malformed {| q_ce := "gzip"; q_gz_ok := true; q_ct := "ndjson"; q_wire_ok := true;
+               q_body := BZipkin true [{| z_tid := ZStr "1"; z_sid := ZStr "690Ed2bfC9DECBfd00"; z_pid := ZAbsent; z_ts := TStrNum; z_dur := TAbsent |}] |} = false.
+Proof. vm_compute. reflexivity. Qed.
+
 (* non-trivial instances: the former witnesses of defects 8 and 9 *)
 Example ingest_from_zero_is_answered :
   predict {| q_ce := ""; q_gz_ok := false; q_ct := "binary/octet-stream"; q_wire_ok := true;
